@@ -1,6 +1,7 @@
 package main
 
 import (
+	"bytes"
 	"errors"
 	"fmt"
 	"math"
@@ -927,6 +928,34 @@ func runC12(w *W) {
 	}
 	for _, d := range gen.Corpus(400 << 10) {
 		judge("corpus:"+d.Name, d.Data)
+	}
+	// key lengths around every power of two (length-indexed tables, masks and shifts in
+	// lookups and filters): members whose keys differ only in length, or only in the last byte
+	lens := []int{0, 1, 2, 3, 7, 8, 9, 15, 16, 17, 31, 32, 33, 62, 63, 64, 65, 66, 100, 127, 128, 129, 200, 255, 256, 257, 511, 512, 513, 1000, 4095, 4096, 4097, 65535, 65536, 65537}
+	for i := range lens {
+		for _, same := range []bool{false, true} {
+			var b bytes.Buffer
+			b.WriteByte('{')
+			for j := 0; j < 5; j++ {
+				l := lens[(i+j)%len(lens)]
+				if same {
+					l = lens[i]
+				}
+				key := strings.Repeat("k", l)
+				if same && l > 0 {
+					key = key[:l-1] + string(rune('a'+j))
+				} else if same && j > 0 {
+					break
+				}
+				if j > 0 {
+					b.WriteByte(',')
+				}
+				fmt.Fprintf(&b, `"%s":%s`, key, []string{"1", `[2,"x"]`, `"v"`, `{"in":true}`, "null"}[j])
+			}
+			b.WriteByte('}')
+			judge("key-lengths", b.Bytes())
+			judge("key-lengths", []byte(`{"outer":`+b.String()+`,"z":[`+b.String()+`]}`))
+		}
 	}
 }
 
